@@ -542,10 +542,7 @@ func GenExprOfKind(t *rapid.T, tab Table, want Kind, depth int, custom bool) Exp
 		case KInt:
 			e.CI = GenInt(t)
 		case KFloat:
-			e.CF = GenFloat(t, false)
-			if e.CF == 0 && math.Signbit(e.CF) {
-				e.CF = 0.25 // the sign of a zero constant is not preserved by Const columns (see C06)
-			}
+			e.CF = GenFloat(t, false) // (-0.0 included: a constant is the value written, D24)
 		case KBool:
 			e.CB = rapid.Bool().Draw(t, "cb")
 		default:
